@@ -144,3 +144,13 @@ Theorem C18_pinned_writer_never_writes_standalone : forall (V : Type) (d : adoc 
     d_morphs d <> [] -> forall f, l_write_document_orig V d <> WOk f.
 Proof. exact orig_never_writes_standalone. Qed.
 Print Assumptions C18_pinned_writer_never_writes_standalone.
+
+(* ---- the executable domain checks that Coq evaluates on every generated input imply the hypotheses above *)
+Theorem C18_domain_checks_sound :
+  (forall c indices, to_root_domb c indices = true -> tree_parent c /\ forall i, In i indices -> 0 <= i < zlen c) /\
+  (forall (V : Type) (m : amorph V), view_domb m = true ->
+     no_floating V m = true /\ valid_morphology V m = true /\ tree_parent (am_conn m) /\ root_index (am_conn m) = Some 0) /\
+  (forall (V : Type) (d : adoc V), doc_domb d = true ->
+     NoDup (top_names V d) /\ ~ In "vertices"%string (cell_morph_names V 0 (d_cells d))).
+Proof. exact (conj to_root_domb_sound (conj view_domb_sound doc_domb_sound)). Qed.
+Print Assumptions C18_domain_checks_sound.
